@@ -83,7 +83,7 @@ func specDigits(s string) string { return strings.Replace(s, ".", "", -1) }
 
 // The handler's real input is the decoded request; the mandatory AVPs (Subscription-Id, Service-Rating)
 // are an environment precondition stated where the decoded request first exists.
-//@ func handleSUR$1 [C08]
+//@ func handleSUR$1 [C08 C17]
 //@   requires c != nil && m != nil
 //@   assume "sr := sur.ServiceRating": sur.ServiceRating != nil && sur.SubscriptionId != nil
 //@   ensures specKnown(specReq()) ==> ghostWrites == old(ghostWrites) + 1
